@@ -176,12 +176,16 @@ def overQuota (s : State) (here : Nat) : Bool :=
   | some q => decide (here > q)
   | none => false
 
+/-- `self._index_get(oid, 0)`: position of the current committed record, 0 if there is none -/
+def prevPos (index : List (Oid × Tid × Nat)) (oid : Oid) : Nat :=
+  match lookup oid index with
+  | some (_, p) => p
+  | none => 0
+
 /-- the common tail of store / deleteObject: tindex entry, two temp-file writes, quota check,
     then (storeBlob only) the blob file -/
 def stage (s : State) (oid : Oid) (del : Bool) (dlen tag : Nat) (blob : Bool) : Res :=
-  let old := match lookup oid s.index with
-    | some (_, p) => p
-    | none => 0
+  let old := prevPos s.index oid
   let off := recsSize s.tfile
   let here := s.pos + off + s.thl
   let r : Rec := { oid := oid, tid := s.tid, prev := old, del := del, dlen := dlen, tag := tag }
@@ -369,10 +373,7 @@ def cleanTxn (t : TxnId) (tid : Tid) (st ul dl el : Nat) (stores : List StoreArg
 def mkRecs (s : State) (tid : Tid) (stores : List StoreArg) : List Rec :=
   stores.map fun a =>
     { oid := a.oid, tid := tid,
-      prev := (match lookup a.oid s.index with
-               | some (_, p) => p
-               | none => 0),
-      del := false, dlen := a.dlen, tag := a.tag }
+      prev := prevPos s.index a.oid, del := false, dlen := a.dlen, tag := a.tag }
 
 /-! ### MappingStorage, optionally wrapped in a BlobStorage -/
 
